@@ -2619,6 +2619,11 @@ def check_C20(tier, seed):
         if route == 'funcall': call = "(funcall '%s %s)" % (f, ' '.join(args))
         elif route == 'mapcar' and f == 'host-opt': call = "(mapcar 'host-opt (list %s))" % ' '.join(args)
         hitems.append(('(setq v 5) ' + call, {}))
+    for _ in range(tier_n(tier, 200, 4000)):
+        lst = rng.choice(["'('a (quote b) \"s\" (1 2) c nil)", "'(x y)", "'((+ 1 2) 'q ''r)", "(list ''a 1)", "'(:k \"x\")"])
+        form = rng.choice(["(mapcar 'host-id %s)", "(seq-map #'host-id %s)", "(seq-filter 'host-id %s)", "(seq-find 'host-id %s)", "(funcall 'host-id (car %s))",
+                           "(seq-reduce (lambda (acc e) (cons (host-id e) acc)) %s nil)", "(sort %s (lambda (p q) (host-id nil)))", "(mapcar (lambda (e) (host-conv \"k\" 1 e)) %s)"])
+        hitems.append(('(setq c 7) (setq x 8) ' + form % lst, {}))
     rows = run_exprs(res, hitems, per_case=25, tag='h')
     res.cov['evaluations'] += ncmp
     res.cov['skipped_outside_model'] = res.cov.get('skipped_outside_model', 0) + nskip
